@@ -100,6 +100,7 @@ M = [
     ("c19-hopcroft-logging", "C19", "dfa_algorithms.py", "            log(f'split(W, a, P) = {print_Q(P1)}, {print_Q(P2)}')", "            log(f'split(W, a, P) = {print_Q(P1)}, {print_Q(P2)}, {W_cal.clear() if log.__globals__['GambaTools'].enable_logging else None}')"),
     ("c19-complement-shares-nothing", "C19", "dfa_algorithms.py", "    return DFA(Q, Sigma, delta, q0, Q - F)", "    F ^= Q\n    return DFA(Q, Sigma, delta, q0, F)"),
     ("c19-nfa-to-dfa-order", "C19", "nfa_algorithms.py", "    return not q.isdisjoint(F)\n", "    return not q.isdisjoint(F) and (len(q) < 2 or sorted(q)[0] == next(iter(q)))\n"),
+    ("c17-dfa-build-unchecked", "C17", "dfa_algorithms.py", "        self._check_is_total(input_symbols)\n\n        Q = set(State(s) for s in A.states)\n        Sigma = set(Symbol(s) for s in input_symbols)\n        delta = {}\n        q0 = State(set_element(A.initial_states))\n        F = set(State(s) for s in A.final_states)\n        for (p, a, q) in A.transitions:\n            p = State(p)\n            q = State(q)\n            a = Symbol(a)\n            delta[p, a] = q\n        return DFA(Q, Sigma, delta, q0, F)", "        Q = set(State(s) for s in A.states)\n        Sigma = set(Symbol(s) for s in input_symbols)\n        delta = {}\n        q0 = State(set_element(A.initial_states))\n        F = set(State(s) for s in A.final_states)\n        for (p, a, q) in A.transitions:\n            p = State(p)\n            q = State(q)\n            a = Symbol(a)\n            delta[p, a] = q\n        return DFA(Q, Sigma, delta, q0, F, check_validity=len(Q) < 3)"),
     ("c06-gnfa-overwrite", "C06", "regexp_algorithms.py", "            delta1[q, q1] = regexp.Sum(delta1[q, q1], regexp.Symbol(a))", "            delta1[q, q1] = regexp.Symbol(a)"),
 ]
 
